@@ -88,7 +88,11 @@ fn serialize_cluster_tail(
     raw_data_size: Size,
     ser: &mut Serializer,
 ) -> std::io::Result<()> {
-    let offset_size = needed_bytes(cluster.data_size().into_u64());
+    // The stored size of incompressible data may be larger than the data size.
+    let offset_size = needed_bytes(std::cmp::max(
+        cluster.data_size().into_u64(),
+        raw_data_size.into_u64(),
+    ));
     let cluster_header = ClusterHeader::new(
         compression.into(),
         offset_size,
